@@ -285,6 +285,22 @@ CHECKS = {
         note=TLC_BASE + "; fixed-point unit 1e-5 with 2 units of slack; volume bracket and convergence are observation predicates",
         technique="TLA+ clipping lemma checked by TLC; trace validation of recorded OC runs by TLC; numeric observation predicates",
         design="9/C17"),
+    "C20": dict(
+        text=("Writers.tla is a state machine over an abstract file system under histories of WriteToVTI and ScalarToFile "
+              "responses: classification of each vector by size (multiple of the element count => cell data, of the node count "
+              "=> point data, else skipped), component count, block vectors split along the other axis with indexed names, "
+              "2-component point vectors on 2D domains interleaved to three components, one file per iteration unless "
+              "overwrite (nothing written when no vector qualifies), header once then one row per call with the iteration "
+              "number first and one column per scalar or per entry. TLC checks FilesOK and ArraysOK on all histories to depth "
+              "3/4 for six configurations (2D and 3D domains with non-multiple element/node counts, vector / block / skipped "
+              "inputs, scale factors, overwrite modes, formats .10e/.4f/e/.6g/.3e/f, separators tab ; space , | and .csv). "
+              "Every behaviour is replayed on the real modules in a scratch directory; after every call all files are decoded "
+              "(XML attributes, extent / spacing / origin, base64 blocks as float32, log header and rows) and compared with "
+              "the specification's file system."),
+        note=(TLC_BASE + "; byte-level decoding (XML, base64, text) is the harness's trusted projection; data are small integers, "
+              "exact in single precision; whether third-party VTK readers accept the files is not decided"),
+        technique="TLA+ abstract file-system machine checked by TLC; behaviour replay with decoding of the written files",
+        design="9/C20"),
 }
 
 
